@@ -7,6 +7,8 @@ from symx.proto import (Entropy, setup_hash_axioms, outcome, okind, orders, new_
 from checks.c15 import job_int_element_codec, member_pow_stub, MEMBER
 
 PID = "C05"
+TECHNIQUE = 'symbolic execution of the real decoders on fully symbolic byte strings of every length 0..W+2 / 0..34; membership, on-curve and subgroup tests as abstract predicates; z3 decides accepted => canonical member'
+LEVEL_NOTE = 'Z_p^* cyclic; K4 + group structure for the Ed25519 subgroup test; xrecover contract assumed at full width; refutation by a pool of constructed encodings and an independent strict decoder'
 EXPLANATION = (
     "Integer groups: the real IntegerGroup.bytes_to_element/_is_member/_element_to_bytes run on a fully symbolic byte "
     "string of every length 0..W+2 at full width (1024/2048/3072 bits), the membership exponentiation pow(i,q,p) "
